@@ -111,6 +111,25 @@ def check(run, driver):
         mod = [b2f(x["b"]) for x in r["ok"]["vec"]]
         if len(mod) != flat_out.size or any(abs(a - b) > 1e-9 for a, b in zip(mod, flat_out)):
             run.corr_fail("vector-model", {"rates": v}, mod, flat_out)
+    # ---- history: the same rate buffer refilled in place; nearby rates evaluated one after the other in the same process
+    from common import reuse_check
+    for it in range(16 if thorough else 6):
+        m = int(rng.integers(1, 5))
+        a1, a2 = rng.uniform(0, 20, size=m), rng.uniform(0, 300, size=m)
+        run.case("history", [a1.tolist(), a2.tolist()], True)
+        reuse_check(run, "poisson_entropy", lambda l: np.asarray(poisson_entropy(l), dtype=float).reshape(-1).tolist(), (a1,), (a2,), {"clause": "elementwise", "history": True})
+        lam = float(rng.uniform(0, 50)); eps = float(10 ** rng.uniform(-12, -6))
+        h1 = float(np.asarray(poisson_entropy(lam)).reshape(-1)[0]); h2 = float(np.asarray(poisson_entropy(lam + eps)).reshape(-1)[0])
+        r2 = b2f(driver.run([{"op": "poisson_entropy", "lams": [fl(lam + eps)]}])[0]["ok"]["ref"][0]["b"])
+        if abs(h2 - r2) > 1e-9:
+            run.prop_fail("entropy of a rate evaluated right after a nearby rate differs from -sum p log p (stale value served)", {"first_rate": lam, "second_rate": lam + eps}, {"clause": "accuracy", "history": True}, {"impl": h2, "reference": r2, "previous_value": h1})
+    for lam_small in (3e-9, 2e-9, 1e-10):     # tiny rates after a zero rate (memo tables keyed on rounded rates)
+        poisson_entropy(0.0)
+        hs = float(np.asarray(poisson_entropy(lam_small)).reshape(-1)[0])
+        rs = b2f(driver.run([{"op": "poisson_entropy", "lams": [fl(lam_small)]}])[0]["ok"]["ref"][0]["b"])
+        run.case("history", ["after-zero", lam_small], True)
+        if abs(hs - rs) > 1e-9 or (hs == 0.0 and rs > 0 and rs > 1e-300 and abs(hs - rs) > 1e-3 * rs):
+            run.prop_fail("entropy of a tiny rate evaluated after rate 0 is wrong (stale value served)", {"rate": lam_small}, {"clause": "accuracy", "history": True}, {"impl": hs, "reference": rs})
     # ---- joint entropy
     jreqs, jmeta = [], []
     for _ in range(120 if thorough else 40):
